@@ -165,6 +165,9 @@ type fsOp struct {
 	Kind string
 	Path string
 	N    int // bytes for writes
+	// Appended holds the bytes of a write that is a pure append (position = current length):
+	// a crash DURING that write can leave any prefix of them behind the rest of the file
+	Appended []byte
 }
 
 func (o fsOp) String() string {
@@ -234,6 +237,13 @@ func (c *crashFS) pre(kind, p string, n int) {
 	c.ops++
 	if c.before != nil {
 		c.before(fsOp{Kind: kind, Path: p, N: n})
+	}
+}
+
+func (c *crashFS) preOp(op fsOp) {
+	c.ops++
+	if c.before != nil {
+		c.before(op)
 	}
 }
 
@@ -447,7 +457,11 @@ func (f *crashFile) ReadAt(p []byte, off int64) (int, error) { return f.f.ReadAt
 func (f *crashFile) Write(p []byte) (int, error) {
 	f.fs.mu.Lock()
 	defer f.fs.mu.Unlock()
-	f.fs.pre("write", f.name, len(p))
+	if f.pos == len(f.n.data) && len(p) > 1 && len(p) <= 1<<20 {
+		f.fs.preOp(fsOp{Kind: "write", Path: f.name, N: len(p), Appended: bytes.Clone(p)})
+	} else {
+		f.fs.pre("write", f.name, len(p))
+	}
 	n, err := f.f.Write(p)
 	if err != nil {
 		return n, err
